@@ -648,7 +648,8 @@ class TaskHandler(PoolThread):
                     cache[job]._set(ind + 1, (False, ExceptionInfo()))
                 if set_length:
                     util.debug('doing set_length()')
-                    set_length(i + 1)
+                    # i + 1 tasks were sent, plus the error item just stored
+                    set_length(i + 2)
         else:
             debug('task handler got sentinel')
 
